@@ -845,6 +845,9 @@ class Instance(object):
         if new > lim or new > 65536:
             return M32
         if new > MAY_FAIL_PAGES:
+            if getattr(self, 'may_fail_alt', False):
+                self.alt_old = old          # both outcomes are acceptable; the model goes on with "failed"
+                return M32
             raise Indeterminate('memory.grow beyond 1 GiB may fail')
         if mem.shared and mem.max is not None:
             pass
